@@ -176,7 +176,61 @@ theorem insertRange_spec (b : Bitmap) (h : b.WF) (lo hi : Bound)
 theorem pushUnchecked_spec (dbg : Bool) (b : Bitmap) (h : b.WF) (v : Nat) (hv : v < 4294967296)
     (hmax : ∀ x ∈ elems b, x < v) :
     ∃ b', pushUnchecked dbg b v = some b' ∧ b'.WF ∧ elems b' = elems b ++ [v] := by
-  sorry
+  obtain ⟨hk, hl⟩ := split_lt v hv
+  have hjs := join_split v
+  obtain ⟨cf, f0, f1, f2, f4⟩ := Container.pushUnchecked_spec dbg (Container.new (hi16 v))
+    (Store.canon_inv _ (Container.new_canon _)) (lo16 v) hl (by simp [Container.new_elems])
+  rw [Container.new_elems] at f4
+  have hfresh : (∀ d ∈ b, d.key < hi16 v) →
+      ∃ b', (((Container.new (hi16 v)).pushUnchecked dbg (lo16 v)).map fun c => b ++ [c]) = some b' ∧
+        b'.WF ∧ elems b' = elems b ++ [v] := by
+    intro hlt
+    have := snoc_pushed b h cf v [] hk f1 f2 f4 hlt
+    exact ⟨b ++ [cf], by rw [f0]; rfl, this.1, by simpa using this.2⟩
+  unfold pushUnchecked
+  cases hlast : b.getLast? with
+  | none =>
+    have : b = [] := List.getLast?_eq_none_iff.mp hlast
+    subst this
+    exact hfresh (by simp)
+  | some c =>
+    obtain ⟨init, rfl⟩ := List.getLast?_eq_some_iff.mp hlast
+    obtain ⟨hinit, hlt, hck, hcan, hne⟩ := (wf_snoc_iff init c).mp h
+    have hinv := Store.canon_inv _ hcan
+    have hcmem : ∀ x ∈ c.store.elems, c.key * 65536 + x < v := by
+      intro x hx
+      apply hmax
+      rw [elems_append, elems_single]; apply List.mem_append_right
+      exact List.mem_map_of_mem hx
+    simp only []
+    by_cases h1 : c.key = hi16 v
+    · rw [if_pos h1, List.dropLast_concat]
+      obtain ⟨c', q0, q1, q2, q4⟩ := Container.pushUnchecked_spec dbg c hinv (lo16 v) hl (by
+        intro x hx; have := hcmem x hx; omega)
+      obtain ⟨w1, w2⟩ := snoc_pushed init hinit c' v c.store.elems hk (q1.trans h1) q2 q4
+        (fun d hd => h1 ▸ hlt d hd)
+      refine ⟨init ++ [c'], by rw [q0]; rfl, w1, ?_⟩
+      rw [w2, elems_append, elems_single]
+      simp only [Container.elems, h1]
+    · rw [if_neg h1]
+      obtain ⟨x0, hx0⟩ : ∃ x0, x0 ∈ c.store.elems := by
+        cases hce : c.store.elems with
+        | nil => exact absurd hce hne
+        | cons a l => exact ⟨a, List.mem_cons_self ..⟩
+      have h3 : c.key < hi16 v := by
+        have := hcmem x0 hx0
+        have := Store.elems_lt _ hinv x0 hx0
+        unfold hi16 lo16 at *; omega
+      have h2 : (dbg && decide (c.key > hi16 v)) = false := by
+        have : ¬ c.key > hi16 v := by omega
+        simp [this]
+      rw [h2]
+      simp only [Bool.false_eq_true, if_false]
+      apply hfresh
+      intro d hd
+      rcases List.mem_append.mp hd with hd | hd
+      · have := hlt d hd; omega
+      · simp at hd; subst hd; exact h3
 
 /-- iter.rs `append`: never panics (for either build configuration), accepts exactly the ascending prefix -/
 theorem append_spec (dbg : Bool) (b : Bitmap) (h : b.WF) (vs : List Nat) (hvs : ∀ v ∈ vs, v < 4294967296) :
